@@ -1,6 +1,6 @@
 """C02 — aggregation, distinct and negation follow the documented semantics."""
 from vlib import common, proof
-from props import coregen as G, corecheck as K
+from props import coregen as G, corecheck as K, variants as V
 
 PID = 'C02'
 PROFILE = dict(named_cols=0.4, partial_args=0.3, inclusion=0.2, assign=0.5, lists=0.2, records=0.2, combine=0.55,
@@ -23,6 +23,11 @@ def run(tier, replay=None):
       'list-valued aggregate columns are compared as sorted lists',
   ]
   ok, info = proof.proof_stage(rep, PID, extra_trusted=['props/coregen.py printers', 'props/corecheck.py, Core/Check.v'])
-  variants = [('plain', lambda prog, r: G.p_program(prog))]
+  variants = [('plain', lambda prog, r: G.p_program(prog)),
+              # the locals of sibling aggregating expressions / negations of one rule get the same names
+              ('sibling_combines_share_local_names', V.siblings_share_local_names)]
   K.run_core(rep, PID, tier, PROFILE, variants, 200, 3000, 'c02', replay=replay, ok=ok, info=info, accept=uses_c02)
+  if not replay:
+    from props import c07
+    c07.sibling_scopes(rep, tier, salt='c02-siblings')   # chained aggregating expressions with clashing local names
   return rep.finish()
